@@ -277,31 +277,76 @@ Proof.
   - rewrite (Hn Hz). exists 45%N, (dec_of_N (Z.to_N (- z))). split; [reflexivity|lia].
 Qed.
 
-Theorem float_expr_denotes_rational : forall n d, 0 < d -> const_float_rational n d = Some (n, d).
+Lemma integral_form_parses n : parse_fexpr (py_str_int n ++ [46; 48]%N) = Some (n, 1).
 Proof.
-  intros n d Hd. unfold const_float_rational, filter_literal_float_expr. cbn [fst snd]. cbv zeta.
-  destruct (Z.eqb_spec d 1) as [->|Hd1].
-  - cbn [app]. destruct (py_str_int_head n) as [c [r [E Hc]]].
-    pose proof (parse_fnum_render n []) as HP. change ([46; 48]%N) with (46%N :: 48%N :: []). rewrite E in HP |- *.
-    cbn [app] in HP |- *. unfold parse_fexpr. apply N.eqb_neq in Hc. rewrite Hc. rewrite HP. reflexivity.
-  - cbn [app]. unfold parse_fexpr. change (40 =? 40)%N with true. cbv iota.
-    rewrite parse_fnum_render. cbn [strip]. change (32 =? 32)%N with true. change (47 =? 47)%N with true. cbv iota.
-    rewrite parse_fnum_render. cbn [strip]. change (41 =? 41)%N with true. cbv iota. reflexivity.
+  destruct (py_str_int_head n) as [c [r [E Hc]]].
+  pose proof (parse_fnum_render n []) as HP. change ([46; 48]%N) with (46%N :: 48%N :: []). rewrite E in HP |- *.
+  cbn [app] in HP |- *. unfold parse_fexpr. apply N.eqb_neq in Hc. rewrite Hc. rewrite HP. reflexivity.
 Qed.
 
-(* finding F-FLOAT-LIT-RANGE: the operands are not always floating constants within the range of double: DBL_MIN written
-   2.2250738585072014e-308 = 11125369292536007 / (5 * 10^323), a normal double (>= 2^-1022) *)
+Lemma division_form_parses n d :
+  parse_fexpr ([40%N] ++ py_str_int n ++ [46; 48; 32; 47; 32]%N ++ py_str_int d ++ [46; 48; 41]%N) = Some (n, d).
+Proof.
+  cbn [app]. unfold parse_fexpr. change (40 =? 40)%N with true. cbv iota.
+  rewrite parse_fnum_render. cbn [strip]. change (32 =? 32)%N with true. change (47 =? 47)%N with true. cbv iota.
+  rewrite parse_fnum_render. cbn [strip]. change (41 =? 41)%N with true. cbv iota. reflexivity.
+Qed.
+
+(* innermost lemmas about the shape of the translated functions *)
+Lemma float_expr_integral rf n : const_float_expr rf n 1 = py_str_int n ++ [46; 48]%N.
+Proof. unfold const_float_expr, filter_literal_float_expr. cbn [fst snd]. cbv zeta. reflexivity. Qed.
+
+Lemma float_expr_fraction rf n d : d <> 1 ->
+  const_float_expr rf n d =
+  if division_rendered n d then [40%N] ++ py_str_int n ++ [46; 48; 32; 47; 32]%N ++ py_str_int d ++ [46; 48; 41]%N else rf (n, d).
+Proof.
+  intro Hd. unfold const_float_expr, filter_literal_float_expr, float_division_expr, division_rendered, division_operand_limit.
+  cbn [fst snd]. cbv zeta. destruct (Z.eqb_spec d 1); [contradiction|]. reflexivity.
+Qed.
+
+(* whenever the integral form or the division form is rendered, the expression denotes exactly n/d *)
+Theorem float_expr_denotes_rational : forall rf n d, 0 < d -> d = 1 \/ division_rendered n d = true ->
+  const_float_rational rf n d = Some (n, d).
+Proof.
+  intros rf n d Hd H. unfold const_float_rational. destruct (Z.eq_dec d 1) as [->|Hd1].
+  - rewrite float_expr_integral. apply integral_form_parses.
+  - destruct H as [H|H]; [contradiction|]. rewrite float_expr_fraction by assumption. rewrite H. apply division_form_parses.
+Qed.
+
+(* otherwise the rendered text is exactly what the oracle (Python's repr(float(value))) returns *)
+Theorem float_expr_out_of_range_is_oracle : forall rf n d, d <> 1 -> division_rendered n d = false ->
+  const_float_expr rf n d = rf (n, d).
+Proof. intros rf n d Hd H. rewrite float_expr_fraction by assumption. rewrite H. reflexivity. Qed.
+
+(* the operands of a rendered division are floating constants within the range of double *)
+Theorem float_operands_in_range : forall rf n d, 0 < d -> d <> 1 -> division_rendered n d = true ->
+  const_float_rational rf n d = Some (n, d) /\ float_lit_overflows n d = false /\ operands_in_range (const_float_rational rf n d) = true.
+Proof.
+  intros rf n d Hd Hd1 H. pose proof (float_expr_denotes_rational rf n d Hd (or_intror H)) as HR.
+  assert (Ho : float_lit_overflows n d = false).
+  { assert (HL : 2 ^ 1023 < dbl_lit_limit) by (vm_compute; reflexivity).
+    unfold division_rendered, division_operand_limit in H. apply andb_true_iff in H. destruct H as [H1 H2].
+    apply Z.ltb_lt in H1, H2. unfold float_lit_overflows. apply orb_false_iff. split; apply Z.leb_gt; lia. }
+  split; [exact HR|]. split; [exact Ho|]. rewrite HR. unfold operands_in_range. rewrite Ho. reflexivity.
+Qed.
+
+(* the operand of the integral form is in range for every value the front end admits (|n| <= DBL_MAX < dbl_lit_limit) *)
+Theorem float_integral_operand_in_range : forall rf n, Z.abs n < dbl_lit_limit ->
+  const_float_rational rf n 1 = Some (n, 1) /\ float_lit_overflows n 1 = false.
+Proof.
+  intros rf n Hn. split; [apply float_expr_denotes_rational; [lia|left; reflexivity]|].
+  assert (HL : 1 < dbl_lit_limit) by (vm_compute; reflexivity).
+  unfold float_lit_overflows. apply orb_false_iff. split; apply Z.leb_gt; lia.
+Qed.
+
+(* documentation of the repaired defect F-FLOAT-LIT-RANGE: the OLD rendering (always the division) of DBL_MIN written
+   2.2250738585072014e-308 = 11125369292536007 / (5 * 10^323), a normal double, has an out-of-range operand; the NEW code hands
+   that constant to the oracle *)
 Theorem float_operands_in_range_refuted : exists n d,
-  0 < d /\ d <= n * 2 ^ 1022 /\ n < d /\ const_float_rational n d = Some (n, d) /\ const_float_operands_in_range n d = false.
+  0 < d /\ d <= n * 2 ^ 1022 /\ n < d /\ parse_fexpr (old_filter_literal_float_expr (n, d)) = Some (n, d) /\
+  old_const_float_operands_in_range n d = false /\ (forall rf, const_float_expr rf n d = rf (n, d)).
 Proof.
   exists 11125369292536007, (5 * 10 ^ 323). split; [reflexivity|]. split; [vm_compute; discriminate|]. split; [reflexivity|].
-  split; [apply float_expr_denotes_rational; reflexivity|]. vm_compute. reflexivity.
-Qed.
-
-(* ... and that is the only obstacle: outside the trigger both operands are in range and the expression denotes the rational *)
-Theorem float_operands_in_range_partial : forall n d, 0 < d -> float_lit_overflows n d = false ->
-  const_float_rational n d = Some (n, d) /\ const_float_operands_in_range n d = true.
-Proof.
-  intros n d Hd Ho. pose proof (float_expr_denotes_rational n d Hd) as H. split; [exact H|].
-  unfold const_float_operands_in_range. rewrite H, Ho. reflexivity.
+  split; [vm_compute; reflexivity|]. split; [vm_compute; reflexivity|].
+  intro rf. apply float_expr_out_of_range_is_oracle; [vm_compute; discriminate|vm_compute; reflexivity].
 Qed.
